@@ -79,16 +79,17 @@ Proof. exact rejected_no_report. Qed.
 Print Assumptions c20_rejected_no_report.
 
 (* exit status: 0, 1 or 2 and nothing else; 2 exactly for clap's group conflict *)
-Theorem c20_exit_status : forall f e, f_help_md f = false ->
+Theorem c20_exit_status : forall f e,
   (snd (run f e) = 0 \/ snd (run f e) = 1 \/ snd (run f e) = 2) /\
   (snd (run f e) = 2 <-> 1 < group_count f).
-Proof. exact exit_codes. Qed.
+Proof. exact exit_codes_all. Qed.
 Print Assumptions c20_exit_status.
 
-(* the hidden --help-markdown adds the one modelled panic site (expect on the write) *)
+(* the hidden --help-markdown included: 0, 1 or 2 for EVERY flag record and EVERY environment.  Until round 5 this carried a
+   fourth disjunct "101 with --help-markdown on a failing standard output": print_help_markdown(..).expect(..) was a panic
+   (`minidump-stackwalk --help-markdown x | head -c 10` ended with status 101), finding F-C20e, fixed by propagating the error *)
 Theorem c20_exit_status_help : forall f e,
-  snd (run f e) = 0 \/ snd (run f e) = 1 \/ snd (run f e) = 2 \/
-  (snd (run f e) = 101 /\ f_help_md f = true /\ e_write e Stdout HelpDoc <> IoOk).
+  snd (run f e) = 0 \/ snd (run f e) = 1 \/ snd (run f e) = 2.
 Proof. exact exit_codes_help. Qed.
 Print Assumptions c20_exit_status_help.
 
@@ -460,13 +461,11 @@ Theorem c20_argv_outcomes : forall pid argv e,
 Proof. exact stackwalk_cases. Qed.
 Print Assumptions c20_argv_outcomes.
 
-(* never by panic: for every argument vector and environment neither panic site that consumes a parsed value
-   (unwrap in the --verbose parser, unimplemented!() behind --features) is reached; the exit status is 0, 1 or 2, or
-   101 through the one remaining site, --help-markdown's expect on a failing standard output *)
+(* never by panic, at full strength: for EVERY argument vector and EVERY environment no panic site is reached (unwrap in the
+   --verbose parser, unimplemented!() behind --features; --help-markdown's expect is gone, F-C20e) and the exit status is 0, 1 or 2 *)
 Theorem c20_argv_never_panics : forall pid argv e,
   existsb is_cli_panic (fst (stackwalk pid argv e)) = false /\
-  (snd (stackwalk pid argv e) = 0 \/ snd (stackwalk pid argv e) = 1 \/ snd (stackwalk pid argv e) = 2 \/
-   (snd (stackwalk pid argv e) = 101 /\ In (MainEv PanicEv) (fst (stackwalk pid argv e)))).
+  (snd (stackwalk pid argv e) = 0 \/ snd (stackwalk pid argv e) = 1 \/ snd (stackwalk pid argv e) = 2).
 Proof. exact argv_never_panics. Qed.
 Print Assumptions c20_argv_never_panics.
 
